@@ -1104,3 +1104,33 @@ fire('C15', 'machine-behaviour-never-resets', 'C15.R7', 'reset-before-first-item
 fire('C02', 'reqstore-get-tests-item-truthiness (seed C02-e)', 'C02.R7', 'ReservableReqStore.get',
      lambda p: M.replace_node(p, S_RS, 'ReservableReqStore.get', lambda n: isinstance(n, ast.If) and ast.unparse(n.test) == 'item is None',
                               sub('if item is None:', 'if not item:')))
+
+# ---- round-5 seeds
+fire('C17', 'splitter-idle-stamped-with-setup-duration (seed C19-e)', 'C17.R12', 'Splitter.behaviour::stamp:update_state',
+     lambda p: M.replace_node(p, N_SPL, 'Splitter.behaviour', M.stmt_calling('self.update_state', 'IDLE_STATE'), 'self.update_state("IDLE_STATE", self.node_setup_time)'))
+fire('C19', 'splitter-idle-stamped-with-setup-duration (seed C19-e)', 'C19.R7', 'Splitter.behaviour::stamp:update_state',
+     lambda p: M.replace_node(p, N_SPL, 'Splitter.behaviour', M.stmt_calling('self.update_state', 'IDLE_STATE'), 'self.update_state("IDLE_STATE", self.node_setup_time)'))
+fire('C17', 'machine-state-stamped-with-stale-clock', 'C17.R12', 'Machine.behaviour::stamp:update_state_rep',
+     lambda p: M.chain(p, lambda q: M.insert_before(q, N_MAC, 'Machine.behaviour', M.stmt_calling('self.reset'), 't_start = self.env.now'),
+                       lambda q: M.replace_node(q, N_MAC, 'Machine.behaviour', M.stmt_calling('self.update_state_rep'), 'self.update_state_rep(t_start)', which=2)))
+fire('C06', 'combiner-drain-picks-processed-token (seed C20-e)', 'C06.R4', 'selects-by-triggered',
+     lambda p: {N_CMB: p.modules[N_CMB].src.replace('chosen_get_event = next((event for event in reservation_tokens if event.triggered), None)',
+                                                   'chosen_get_event = next((event for event in reservation_tokens if event.processed), None)', 1)})
+fire('C02', 'reqstore-get-truthiness-2', 'C02.R7', 'ReservableReqStore.get',
+     lambda p: M.replace_node(p, S_RS, 'ReservableReqStore.get', lambda n: isinstance(n, ast.If) and ast.unparse(n.test) == 'item is not None', sub('if item is not None:', 'if item:')) if False else
+     M.replace_node(p, S_RS, 'ReservableReqStore.get', lambda n: isinstance(n, ast.If) and ast.unparse(n.test) == 'item is None', sub('if item is None:', 'if not item:')))
+
+fire('C13', 'belt-resume-event-captured-before-the-wait (seed C13-e)', 'C13.R2', 'interrupted-travel-wait',
+     lambda p: {S_BELT: p.modules[S_BELT].src.replace('                        yield self.env.timeout(remaining_phase1_time)', '                        resume_signal = self.resume_event\n                        yield self.env.timeout(remaining_phase1_time)', 1).replace(
+         '                        yield self.resume_event\n                        total_interruption_time += self.env.now - interruption_start_time_phase1', '                        yield resume_signal\n                        total_interruption_time += self.env.now - interruption_start_time_phase1', 1)})
+silent('C13', 'belt-resume-event-aliased-inside-the-handler',
+       lambda p: {S_BELT: p.modules[S_BELT].src.replace(
+           '                        yield self.resume_event\n                        total_interruption_time += self.env.now - interruption_start_time_phase1', '                        resume_signal = self.resume_event\n                        yield resume_signal\n                        total_interruption_time += self.env.now - interruption_start_time_phase1', 1)})
+silent('C20', 'belt-resume-event-aliased-inside-the-handler',
+       lambda p: {S_BELT: p.modules[S_BELT].src.replace(
+           '                        yield self.resume_event\n                        total_interruption_time += self.env.now - interruption_start_time_phase1', '                        resume_signal = self.resume_event\n                        yield resume_signal\n                        total_interruption_time += self.env.now - interruption_start_time_phase1', 1)})
+fire('C15', 'combiner-policy-defaulted-with-or (seed C15-e)', 'C15.R9', 'Combiner.__init__::stores(out_edge_selection)',
+     lambda p: M.replace_node(p, N_CMB, 'Combiner.__init__', M.assign_to('self.out_edge_selection'), 'self.out_edge_selection = out_edge_selection or "FIRST_AVAILABLE"'))
+silent('C15', 'combiner-policy-defaulted-when-none',
+       lambda p: M.replace_node(p, N_CMB, 'Combiner.__init__', M.assign_to('self.out_edge_selection'),
+                                'self.out_edge_selection = out_edge_selection if out_edge_selection is not None else "FIRST_AVAILABLE"'))
